@@ -1,0 +1,9 @@
+//go:build verif && !amd64
+
+package dsp
+
+// VerifArchVariants: no architecture-specific routine can be singled out here.
+func VerifArchVariants() []VerifArchKernels { return nil }
+
+// VerifArchSetAVX2 is a no-op without amd64 assembly.
+func VerifArchSetAVX2(v bool) bool { return false }
